@@ -171,3 +171,147 @@ func VxC17_LogNiceStaysFinite() {
 	vx.Assert(!math.IsNaN(s.Min) && !math.IsInf(s.Min, 0) && !math.IsNaN(s.Max) && !math.IsInf(s.Max, 0), "Log.Nice keeps the domain finite")
 	vx.Assert(s.Min <= min0 && s.Max >= max0, "Log.Nice never shrinks the domain")
 }
+
+// vxPinnedLinear: a Linear scale with a symbolic domain a few tick spacings wide and TickOptions that
+// pin the tick level (MinLevel == MaxLevel == level != 0), so that the real FindLevel runs but the
+// level - hence the spacing, a power of the base evaluated natively - is a constant of the path.
+func vxPinnedLinear(maxWidth float64) (s *Linear, o TickOptions, spacing float64) {
+	base := []int{0, 2, 10}[vx.Choose("base", 0, 1+vx.Tier())]
+	level := []int{-1, 1, 2, -2, -3, 3}[vx.Choose("level", 0, 2+3*vx.Tier())]
+	if base != 2 && level < 0 {
+		// negative powers of ten are not exact in float64 and the exact-real reading would compare 5*0.1 with 0.5;
+		// decimal bases are exercised at levels whose spacings (1, 5, 10, 50, ...) are exact
+		level = -level + 1
+	}
+	s = &Linear{Min: vx.Float("Min"), Max: vx.Float("Max"), Base: base}
+	_, _, spacing = s.spacingAtLevel(level, true)
+	// between a fifth of a spacing and maxWidth spacings wide, within 20 spacings of the origin
+	vx.Assume(vx.And(s.Max-s.Min >= spacing/5, s.Max-s.Min <= maxWidth*spacing))
+	vx.Assume(vx.And(s.Min >= -20*spacing, s.Max <= 20*spacing))
+	o = TickOptions{Max: 1 << 30, MinLevel: level, MaxLevel: level}
+	return
+}
+
+// VxC17_LinearNice: Nice never shrinks the domain (beyond the library's 1e-10 slack), moves each end
+// by less than one spacing, is idempotent, and afterwards the first and last major ticks are the new ends.
+// C17: "Nice never shrinks the domain or makes it non-finite, and for Max>=3 it is idempotent, adds at most one major
+// tick spacing at each end, and afterwards the first and last major ticks equal the new Min and Max."
+//
+//vx:mode R
+//vx:solver z3-new
+//vx:maxdec 100000
+//vx:stub scale.(*Linear).guessLevel = vxGuess0
+//vx:bound Base in {0 (10), 2} and levels {-1, 1, 2} (quick) / Base in {0, 2, 10} and levels -3..3 except 0 (thorough), the level pinned through MinLevel == MaxLevel; domain any reals a fifth to three (ticks: two) spacings wide within 20 spacings of the origin; exact-real reading (floor/ceil as integer witnesses)
+//vx:outside tick levels chosen by the count search (covered for arbitrary count functions by VxC17_FindLevel*); domains more than 20 spacings from the origin; float rounding of firstN*spacing
+func VxC17_LinearNice() {
+	s, o, spacing := vxPinnedLinear(3)
+	min0, max0 := s.Min, s.Max
+	slack := (max0 - min0) * 1e-10
+	s.Nice(o)
+	vx.Assert(vx.Leq(s.Min, min0+slack, 1e-12, 1e-12) && vx.Leq(max0-slack, s.Max, 1e-12, 1e-12), "Nice never shrinks the domain (beyond the 1e-10 slack)")
+	vx.Assert(min0-s.Min < spacing+slack && s.Max-max0 < spacing+slack, "Nice adds less than one tick spacing at each end")
+	min1, max1 := s.Min, s.Max
+	s.Nice(o)
+	vx.Assert(vx.Close(s.Min, min1, 1e-12, 1e-12) && vx.Close(s.Max, max1, 1e-12, 1e-12), "Nice is idempotent")
+	major := s.TicksAtLevel(o.MinLevel).([]float64) // the major ticks Ticks(o) returns at this pinned level
+	vx.Assert(len(major) >= 2, "a niced domain has a major tick at each end")
+	if len(major) >= 2 {
+		vx.Assert(vx.Close(major[0], min1, 1e-12, 1e-12) && vx.Close(major[len(major)-1], max1, 1e-12, 1e-12), "after Nice the first and last major ticks equal the new Min and Max")
+	}
+}
+
+// VxC17_LinearTicks: ticks are ascending multiples of the spacing inside the domain, their number is
+// CountTicks, every major tick is a minor tick, and coarser levels have no more ticks.
+// C17: "Ticks returns ascending major and minor ticks inside the domain ... every major tick also a minor tick, at nice
+// values ...; CountTicks(l) equals len(TicksAtLevel(l)) and is non-increasing in l."
+//
+//vx:mode R
+//vx:solver z3
+//vx:maxdec 100000
+//vx:stub scale.(*Linear).guessLevel = vxGuess0
+//vx:bound as VxC17_LinearNice; also Min > Max (swapped) and Min == Max
+func VxC17_LinearTicks() {
+	s, o, spacing := vxPinnedLinear(2)
+	level := o.MinLevel
+	lo, hi := s.Min, s.Max
+	slack := (hi - lo) * 1e-10
+	if vx.Choose("swapped", 0, 1) == 1 {
+		s.Min, s.Max = hi, lo
+	}
+	major, minor := s.Ticks(o)
+	t := Linear{Min: lo, Max: hi, Base: s.Base}
+	vx.Assert(len(major) == t.CountTicks(level) && len(minor) == t.CountTicks(level-1), "CountTicks(l) == len(TicksAtLevel(l)); Ticks returns levels l and l-1")
+	vx.Assert(len(minor) >= len(major), "the tick count is non-increasing in the level")
+	for i, m := range major {
+		vx.Assert(m >= lo-slack-1e-12 && m <= hi+slack+1e-12, "major ticks lie inside the domain")
+		if i > 0 {
+			vx.Assert(vx.Close(m-major[i-1], spacing, 1e-9, 1e-12), "consecutive major ticks are one spacing apart (ascending)")
+		}
+		k := math.Floor(m/spacing + 0.5)
+		vx.Assert(vx.Close(k*spacing, m, 1e-9, 1e-12), "major ticks are integer multiples of the spacing")
+		in := false
+		for _, mi := range minor {
+			in = vx.Or(in, vx.Close(mi, m, 1e-9, 1e-12))
+		}
+		vx.Assert(in, "every major tick is also a minor tick")
+	}
+	for i := 1; i < len(minor); i++ {
+		vx.Assert(minor[i-1] < minor[i], "minor ticks ascend")
+	}
+	// degenerate and empty requests
+	d := Linear{Min: lo, Max: lo}
+	mj, mn := d.Ticks(o)
+	vx.Assert(len(mj) == 1 && len(mn) == 1 && mj[0] == lo && mn[0] == lo, "Min == Max gives the single tick")
+	mj, mn = t.Ticks(TickOptions{Max: 0})
+	vx.Assert(mj == nil && mn == nil, "Max <= 0 gives no ticks")
+}
+
+// VxC17_LogNice: Log.Nice at a pinned level: the new ends are powers of the level's effective base
+// that enclose the old domain, and the domain keeps its sign.
+//
+//vx:mode R
+//vx:solver z3
+//vx:maxdec 100000
+//vx:bound Base 10 (levels 0..2: effective bases 10, 100, 10^4) and Base 2 (levels 1..3), level pinned through MinLevel == MaxLevel (level 0: no limits, TickOptions.Max large); positive and negative domains with 1e-6 <= |Min| < |Max| <= 1e6; log uninterpreted and strictly increasing; the integer tick indexes are case-split so that math.Pow is evaluated natively
+//vx:assume math.Log is strictly increasing; math.Log of a constant is the native value
+//vx:outside accuracy of math.Log/Pow (a 1e-9 relative slack is allowed, as the library's own slack is 1e-10 in log space)
+func VxC17_LogNice() {
+	base := []int{10, 2}[vx.Choose("base", 0, 1)]
+	level := vx.Choose("level", 0, 2)
+	if base == 2 {
+		level++
+	}
+	lo, hi := vx.Float("lo"), vx.Float("hi")
+	vx.Assume(vx.And(lo >= 1e-6, hi <= 1e6))
+	vx.Assume(lo < hi)
+	// anchor the uninterpreted logarithm at the ends of the box (true by monotonicity)
+	vx.Assume(vx.And(math.Log(lo) >= math.Log(1e-6), math.Log(hi) <= math.Log(1e6)))
+	vx.Assume(math.Log(lo) < math.Log(hi))
+	neg := vx.Choose("negative", 0, 1) == 1
+	s, err := NewLog(lo, hi, base)
+	if neg {
+		s, err = NewLog(-hi, -lo, base)
+	}
+	vx.Assume(err == nil)
+	o := TickOptions{Max: 1 << 30, MinLevel: level, MaxLevel: level}
+	// pin the integer tick indexes of this level (forks over the few feasible values)
+	fn, ln, _ := s.spacingAtLevel(level, true)
+	vx.Concretize(int(fn))
+	vx.Concretize(int(ln))
+	s.Nice(o)
+	nlo, nhi := s.Min, s.Max
+	if neg {
+		nlo, nhi = -s.Max, -s.Min
+		vx.Assert(s.Min < 0 && s.Max < 0, "a negative domain stays negative")
+	} else {
+		vx.Assert(s.Min > 0 && s.Max > 0, "a positive domain stays positive")
+	}
+	vx.Assert(vx.IsConcrete(nlo) && vx.IsConcrete(nhi), "the new ends are powers of the effective base with integer exponents")
+	slack := 1e-9 * (math.Log(hi) - math.Log(lo) + 1)
+	vx.Assert(math.Log(nlo) <= math.Log(lo)+slack, "Log.Nice does not raise the lower end (in magnitude)")
+	vx.Assert(math.Log(nhi) >= math.Log(hi)-slack, "Log.Nice does not lower the upper end (in magnitude)")
+}
+
+// vxGuess0 replaces Linear.guessLevel (a logarithm of the domain width): FindLevel's result does not
+// depend on its starting guess (VxC17_FindLevel*).
+func vxGuess0(s *Linear) int { return 0 }
